@@ -3,6 +3,9 @@ import Mathlib.Tactic.FieldSimp
 import Mathlib.Tactic.Linarith
 import Synphot.Core.Binning
 
+set_option linter.unusedSectionVars false
+set_option linter.unusedSimpArgs false
+
 namespace Synphot
 variable {K : Type} [Field K] [LinearOrder K] [IsStrictOrderedRing K]
 
